@@ -4,7 +4,10 @@ import Rare.Proofs.C19Fuel
 import Rare.Proofs.C19Lit
 import Rare.Proofs.C19Tok
 import Rare.Proofs.C19F64c
+import Rare.Proofs.C19Ops
+import Rare.Proofs.C19Pool
 import Rare.Gen.C19
+import Rare.Gen.Access
 /-!
 # C19 — math formulas follow the documented precedence; constants equal bound variables
 
@@ -404,6 +407,92 @@ example : parseStr (ascii "2(x)^2") =
     evalStr (ascii "2(x)^2") 3 = some (some 18) ∧ evalStr (ascii "2*(x)^2") 3 = some (some 18) := by
   decide +kernel
 
+
+/-! ## Round 4: what the operator tables compute, the documentation, the glue of `{! …}` and its hidden state -/
+
+/-- **Every entry of `ops` computes what the model says** (ops.go → `Gen.C19.opsDesc`, regenerated on every
+    run: for each key the shape of its function literal – float arithmetic, comparison through
+    `conditionalOp`, `truthy` combination, int64 operation with its NaN guard, `math.Pow` – recognised on the
+    AST with the operands in the order `(left, right)`).  The described entries are exactly the keys of
+    `ops`, and for every one of them the model's `binOf` IS the interpretation of the description
+    (`binInterp`), over every primitive arithmetic.  A new, dropped or changed entry in /repo (`<`
+    computing `<=`, swapped operands, a removed zero-divisor guard, `&` and `|` exchanged) breaks this. -/
+theorem ops_table_covered (P : Prim α) :
+    Gen.C19.opsDesc.map (·.1) = Gen.C19.opKeys ∧
+    ∀ d ∈ Gen.C19.opsDesc, binInterp P d.2.1 d.2.2.1 d.2.2.2 = some (binOf P d.1) := by
+  refine ⟨by decide, ?_⟩
+  intro d hd
+  simp only [Gen.C19.opsDesc, List.mem_cons, List.not_mem_nil, or_false] at hd
+  rcases hd with rfl | rfl | rfl | rfl | rfl | rfl | rfl | rfl | rfl | rfl | rfl | rfl | rfl | rfl | rfl | rfl | rfl <;>
+    (simp only [binInterp]; simp (config := {decide := true}) only [if_true, if_false, Option.some.injEq]
+     funext l r; simp (config := {decide := true}) [binOf])
+
+/-- **Every entry of `uniOps` computes what the model says**: `-` negates, `!` is `conditionalOp(!truthy(f))`,
+    and every other key `k` is bound to the function of package `math` with the SAME name (`abs` ↦ `math.Abs`,
+    `log10` ↦ `math.Log10`, …: `goMathName`), which is what the model's `P.fn k` stands for. -/
+theorem uniops_table_covered (P : Prim α) :
+    Gen.C19.uniDesc.map (·.1) = Gen.C19.uniKeys ∧
+    ∀ d ∈ Gen.C19.uniDesc, unInterp P d.1 d.2.1 d.2.2 = some (unOf P d.1) := by
+  refine ⟨by decide, ?_⟩
+  intro d hd
+  simp only [Gen.C19.uniDesc, List.mem_cons, List.not_mem_nil, or_false] at hd
+  rcases hd with rfl | rfl | rfl | rfl | rfl | rfl | rfl | rfl | rfl | rfl | rfl | rfl | rfl | rfl | rfl | rfl | rfl | rfl <;>
+    (simp only [unInterp]; simp (config := {decide := true}) only [if_true, if_false, Option.some.injEq]
+     funext x; simp (config := {decide := true}) [unOf])
+
+/-- `truthy(val)` is `val != 0.0` and `conditionalOp` answers `1.0` / `0.0` in /repo – the literals, read by
+    the modelled `strconv.ParseFloat`, are the model's `zeroP` and `one` (`IEEE.truthy`, `IEEE.cond`). -/
+theorem truthy_cond_source :
+    Gen.C19.truthyDesc.1 = "!=" ∧ F64.parseFloat (ascii Gen.C19.truthyDesc.2) = some IEEE.zeroP ∧
+    F64.parseFloat (ascii Gen.C19.condDesc.1) = some F64.one ∧
+    F64.parseFloat (ascii Gen.C19.condDesc.2) = some IEEE.zeroP := by decide +kernel
+
+/-- **The glue of `{! …}` is the modelled one, statement by statement** (funcsMath.go, parser.go →
+    `Gen.C19`): the wrapper's look-ups (`strconv.ParseFloat(val, 64)`, `errors++`, `return 0`), the head
+    of `kfMath` (collapse of static arguments, `stdmath.Compile`, a pool of 5 wrapper objects), the stage
+    it returns (`Get`, deferred `Return`, the assignment that resets BOTH fields, `Eval`, the `errors > 0`
+    check, `FormatFloat(val, 'f', -1, 64)`), the three `strconv` calls of `compileToken` with their base
+    and bit-size arguments, and the regular expression of bare variable names.  (`Model/C19Pool.lean`,
+    `Funcs/Math.lean` and `Model/C19.lean` mirror exactly these statements.) -/
+theorem glue_matches_source :
+    Gen.C19.wrapperGetMatch = ["val:=s.sub.GetMatch(idx)", "iff,err:=strconv.ParseFloat(val,64);err==nil{returnf}",
+      "s.errors++", "return0"] ∧
+    Gen.C19.wrapperGetKey = ["val:=s.sub.GetKey(key)", "iff,err:=strconv.ParseFloat(val,64);err==nil{returnf}",
+      "s.errors++", "return0"] ∧
+    Gen.C19.kfMathHead = ["varsbstrings.Builder",
+      "fori,arg:=rangeargs{s,ok:=expressions.EvalStaticStage(arg)if!ok{returnstageArgError(ErrConst,i)}sb.WriteString(s)}",
+      "expr,err:=stdmath.Compile(sb.String())", "iferr!=nil{returnstageErrorf(ErrParsing,err.Error())}",
+      "ctxPool:=slicepool.NewObjectPool[keyBuilderContextWrapper](5)"] ∧
+    Gen.C19.kfMathClosure = ["mathCtx:=ctxPool.Get()", "deferctxPool.Return(mathCtx)",
+      "*mathCtx=keyBuilderContextWrapper{sub:ctx,errors:0,}", "val:=expr.Eval(mathCtx)",
+      "ifmathCtx.errors>0{returnErrorNum}", "returnstrconv.FormatFloat(val,'f',-1,64)"] ∧
+    Gen.C19.compileTokenStrconv = ["strconv.Atoi(inner)", "strconv.ParseInt(t.val,0,64)", "strconv.ParseFloat(t.val,64)"] ∧
+    Gen.C19.validVariableRegex = "(?i)^[a-z][a-z0-9]*$" := by decide
+
+/-- **The documented operators are the operators** (docs/usage/math.md, tables `Binary` and `Unary` →
+    `Gen.C19.docBinaryOps/docUnaryOps`): every documented operator is a key of `ops` / `uniOps` and every key
+    is documented, nothing twice.  (Until c2a543c the document listed `=` for `==` and omitted `%`.) -/
+theorem docs_operators_are_the_tables :
+    (Gen.C19.docBinaryOps.all fun o => Gen.C19.opKeys.contains o) = true ∧
+    (Gen.C19.opKeys.all fun o => Gen.C19.docBinaryOps.contains o) = true ∧
+    Gen.C19.docBinaryOps.length = Gen.C19.opKeys.length ∧
+    (Gen.C19.docUnaryOps.all fun o => Gen.C19.uniKeys.contains o) = true ∧
+    (Gen.C19.uniKeys.all fun o => Gen.C19.docUnaryOps.contains o) = true ∧
+    Gen.C19.docUnaryOps.length = Gen.C19.uniKeys.length := by decide
+
+/-- **Unary operators bind tightest** (the documentation only says "common order of operations"; this is
+    what the code does, for every formula): in the parse of any formula the operand of a unary operator or
+    function is an atom – a literal, a parenthesised group or another unary application – never a binary
+    node.  So `-2^2` is `(-2)^2 = 4` and `!a && b` is `(!a) && b`. -/
+theorem unary_binds_tightest (s : Bytes) (t : Tree) (e : Expr α) (h : compile A s = .ok (t, e)) :
+    t.unaryAtomic = true :=
+  wp_unaryAtomic _ t (parse_wellprec A s t e h).2.1
+
+example : parseStr (ascii "-2^2") = some (.bin false [94] (.un [45] (.lit [50])) (.lit [50])) ∧
+    parseStr (ascii "!a&&b") = some (.bin false [38, 38] (.un [33] (.lit [97])) (.lit [98])) ∧
+    parseStr (ascii "-abs(x)^2") = some (.bin false [94] (.un [45] (.un [97, 98, 115] (.grp [120] (.lit [120])))) (.lit [50])) := by
+  decide +kernel
+
 /-! ## The IEEE-754 binary64 instance (`Rare/Model/C19F64.lean`) -/
 
 section ieee
@@ -783,6 +872,205 @@ example :
         | .ok a, .ok b => decide (a = ascii "2.6") && decide (b = ascii "<BAD-TYPE>")
         | _, _ => false)
      | _ => false) = true := by
+  decide +kernel
+
+
+/-! ### Round 4, IEEE part -/
+
+/-- **Which unary functions are exact**: for every key of `uniOps` bound to `math.X`, the model computes
+    `X`'s IEEE-determined definition when `X` is `Abs`, `Sqrt`, `Floor`, `Ceil` or `Round` (`goMathExact`:
+    sign-bit clear, correctly rounded square root, the integral roundings, half away from zero) and leaves it
+    to the parameter `L` otherwise – keyed by the GO function the table in /repo names, so
+    `"floor": math.Ceil` would break this. -/
+theorem exact_functions_named (L : Libm) :
+    ∀ d ∈ Gen.C19.uniDesc, d.2.1 = "fn" →
+      (prim L).fn d.1 = (match goMathExact d.2.2 with | some f => f | none => L.fn d.1) := by
+  intro d hd hk
+  simp only [Gen.C19.uniDesc, List.mem_cons, List.not_mem_nil, or_false] at hd
+  rcases hd with rfl | rfl | rfl | rfl | rfl | rfl | rfl | rfl | rfl | rfl | rfl | rfl | rfl | rfl | rfl | rfl | rfl | rfl <;>
+    first | (exact absurd hk (by decide)) | (funext x; simp (config := {decide := true}) [prim, exactFn, goMathExact])
+
+/-- The context the documentation's examples are evaluated in (`If x=4`). -/
+def docCtx : Rare.Expr.Ctx :=
+  ⟨fun _ => [], fun k => if k = Gen.C19.docBinding.1 then Gen.C19.docBinding.2 else []⟩
+
+/-- `{! f}` prints `out` on `docCtx` (model of `kfMath` over the IEEE instance, no libm involved). -/
+def docExampleHolds (f out : Bytes) : Bool :=
+  match kfMath [Rare.Expr.Stage.lit f] with
+  | .ok ⟨some st, none⟩ =>
+    (match st.run docCtx with
+     | .ok a => a == out
+     | .error _ => false)
+  | _ => false
+
+/-- **The documented examples hold** (docs/usage/math.md, `## Examples` → `Gen.C19.docExamples`, with the
+    documented binding): `{! 2+2} => 4`, `{! 2 * x} => 8`, `{! [x] * 4} => 16`, `{! abs(-4)} => 4`,
+    `{! (2+2)*3} => 12`, `{! 2(1+1) } => 4` – each evaluated by the model end to end (tokenizer, parser,
+    simplifier, binding through `ParseFloat`, `FormatFloat`).  The correspondence op `docex` checks the same
+    lines against the real code. -/
+theorem docs_examples_hold :
+    (Gen.C19.docExamples.all fun p => docExampleHolds p.1 p.2) = true ∧ Gen.C19.docExamples.length ≥ 6 := by
+  decide +kernel
+
+/-- **The documented number formats are literals** (`### Formats`): each example starts with its prefix and
+    is a numeric constant, `0b1101` = 13, `0x1BC` = 444, `123.456` the correctly rounded binary64. -/
+theorem docs_formats_are_literals :
+    (Gen.C19.docFormats.all fun p => p.1.isPrefixOf p.2 &&
+      (match classify arithT p.2 with | some (.num (some _)) => true | _ => false)) = true ∧
+    evalF64 (ascii "0b1101") 0 = some (ofInt 13).bits ∧ evalF64 (ascii "0x1BC") 0 = some (ofInt 444).bits ∧
+    evalF64 (ascii "123.456") 0 = some 0x405EDD2F1A9FBE77 := by
+  decide +kernel
+
+/-- **`<BAD-TYPE>` exactly when a look-up of the formula does not parse.**  The stage answers `<BAD-TYPE>`
+    iff one of the look-ups the compiled formula makes (`Pool.lookups e`: every variable occurrence that
+    survives constant folding, `&&`/`||` included – they do not short-circuit) yields a text that
+    `strconv.ParseFloat` rejects – the empty text included; otherwise it prints the value. -/
+theorem kfmath_badtype_iff (L : Libm) (e : Expr F64) (ctx : Rare.Expr.Ctx) :
+    (Pool.stateless L e ctx = Rare.Expr.ErrorNum ∨
+      Pool.stateless L e ctx = render (e.eval (arith L) (ctxBinding ctx))) ∧
+    ((∃ v ∈ Pool.lookups e, F64.parseFloat (v.text ctx) = none) → Pool.stateless L e ctx = Rare.Expr.ErrorNum) ∧
+    ((∀ v ∈ Pool.lookups e, (F64.parseFloat (v.text ctx)).isSome = true) →
+      Pool.stateless L e ctx = render (e.eval (arith L) (ctxBinding ctx))) := by
+  rw [Pool.stateless_eq, Pool.badLookups_sum]
+  refine ⟨?_, ?_, ?_⟩
+  · by_cases h : ((Pool.lookups e).map (Pool.lbad ctx)).sum > 0
+    · left; rw [if_pos h]
+    · right; rw [if_neg h]
+  · rintro ⟨v, hv, hp⟩
+    have h1 : Pool.lbad ctx v = 1 := by simp [Pool.lbad, conv, hp]
+    have := Pool.sum_ge_of_mem (Pool.lbad ctx) _ v hv
+    rw [if_pos (by omega)]
+  · intro hall
+    have : ((Pool.lookups e).map (Pool.lbad ctx)).sum = 0 := by
+      apply Pool.sum_zero_of_all
+      intro v hv
+      have := hall v hv
+      cases hp : F64.parseFloat (v.text ctx) with
+      | none => rw [hp] at this; cases this
+      | some x => simp [Pool.lbad, conv, hp]
+    rw [this, if_neg (by omega)]
+
+/-- **History independence.**  Through ONE stage (one pool of wrapper objects, whatever lies in it –
+    any number of objects with any left-over `sub` and `errors`), the answers to a sequence of contexts are
+    the answers of the stateless stage, one by one: evaluation `i` does not depend on evaluations `< i`.
+    And that stateless stage is the one of the shared expression model (`kfmath_output_f64`). -/
+theorem kfmath_history_independent (L : Libm) (e : Expr F64) (pool : Pool.Pool) (ctxs : List Rare.Expr.Ctx) :
+    (Pool.runHistory L true e pool ctxs).1 = ctxs.map (Pool.stateless L e) :=
+  Pool.runHistory_reset L e pool ctxs
+
+theorem kfmath_stage_is_stateless (L : Libm) (s : Bytes) (t : Tree) (e : Expr F64)
+    (h : compile (arith L) s = .ok (t, e)) :
+    ∃ st, Rare.Expr.Funcs.Math.kfMathWith (mathInstL L) [Rare.Expr.Stage.lit s] = .ok ⟨some st, none⟩ ∧
+      ∀ ctx, st.run ctx = .ok (Pool.stateless L e ctx) :=
+  Pool.stage_is_stateless L s t e h
+
+/-- The reset is what makes it so: WITHOUT the `errors: 0` of the assignment (the closure's statement 2,
+    `glue_matches_source`), `{! [0]}` on "abc" and then on "1" answers `<BAD-TYPE>` twice – the second
+    evaluation finds the first one's count in the pooled object – while the stateless answer to "1" is `1`. -/
+theorem kfmath_no_reset_counterexample :
+    let e : Expr F64 := .idx 0
+    let c1 : Rare.Expr.Ctx := ⟨fun _ => ascii "abc", fun _ => []⟩
+    let c2 : Rare.Expr.Ctx := ⟨fun _ => ascii "1", fun _ => []⟩
+    (Pool.runHistory libm0 false e (Pool.Pool.new 5) [c1, c2]).1 = [Rare.Expr.ErrorNum, Rare.Expr.ErrorNum] ∧
+    (Pool.runHistory libm0 true e (Pool.Pool.new 5) [c1, c2]).1 = [Rare.Expr.ErrorNum, ascii "1"] ∧
+    Pool.stateless libm0 e c2 = ascii "1" := by
+  decide +kernel
+
+/-- The pool neither leaks nor grows in sequential use (an empty pool grows to one object). -/
+theorem kfmath_pool_size_stable (L : Libm) (reset : Bool) (e : Expr F64) (pool : Pool.Pool) (ctx : Rare.Expr.Ctx) :
+    (Pool.stageRun L reset e pool ctx).2.length = max pool.length 1 :=
+  Pool.stageRun_pool_length L reset e pool ctx
+
+/-- **Independence under concurrency.**  Any number of goroutines evaluate through ONE stage, each on its
+    own context, interleaved by an arbitrary schedule at the granularity of single accesses to the shared
+    memory (`Pool.step`: the atomic `Get`, the overwrite of the object, every single look-up with its
+    `errors++`, the check and the atomic `Return`; a pool of any initial size, growing when it is empty).
+    Whatever the schedule, a goroutine that has returned has returned the stateless answer for ITS
+    context; and a goroutine that was scheduled `#look-ups + 3` times has returned. -/
+theorem kfmath_concurrent_independent (L : Libm) (e : Expr F64) (size : Nat) (ctxOf : Nat → Rare.Expr.Ctx)
+    (sched : List Nat) (i : Nat) :
+    (∀ out, (Pool.run L e (Pool.Sys.init size ctxOf) sched).pc i = .done out → out = Pool.stateless L e (ctxOf i)) ∧
+    (sched.count i ≥ (Pool.lookups e).length + 3 →
+      (Pool.run L e (Pool.Sys.init size ctxOf) sched).pc i = .done (Pool.stateless L e (ctxOf i))) := by
+  have I := Pool.inv_run L e _ sched (Pool.inv_init L e size ctxOf)
+  have hc : (Pool.run L e (Pool.Sys.init size ctxOf) sched).ctxOf = ctxOf := Pool.run_ctxOf L e _ sched
+  have h1 : ∀ out, (Pool.run L e (Pool.Sys.init size ctxOf) sched).pc i = .done out → out = Pool.stateless L e (ctxOf i) := by
+    intro out h
+    have := I.done_ok i out h
+    rw [hc] at this; exact this
+  refine ⟨h1, fun hcount => ?_⟩
+  have hr := Pool.run_rem L e (Pool.Sys.init size ctxOf) sched i
+  have h0 : ((Pool.run L e (Pool.Sys.init size ctxOf) sched).pc i).rem e = 0 := by
+    rw [hr]; simp only [Pool.Sys.init, Pool.Pc.rem]; omega
+  obtain ⟨out, hout⟩ := Pool.rem_zero_done e _ h0
+  rw [hout, h1 out hout]
+
+/-- not vacuous: three goroutines (contexts "abc", "1", "2.5") through `{! [0]*2}` with a pool of ONE object,
+    interleaved look-up by look-up: the pool grows, nobody sees anybody else's failure. -/
+example :
+    let e : Expr F64 := .bin [42] (.idx 0) (.val (ofInt 2))
+    let ctxOf : Nat → Rare.Expr.Ctx := fun i =>
+      ⟨fun _ => if i = 0 then ascii "abc" else if i = 1 then ascii "1" else ascii "2.5", fun _ => []⟩
+    let s := Pool.run libm0 e (Pool.Sys.init 1 ctxOf) [0, 1, 2, 0, 1, 2, 0, 1, 2, 2, 1, 0]
+    (match s.pc 0, s.pc 1, s.pc 2 with
+     | .done a, .done b, .done c => a == ascii "<BAD-TYPE>" && b == ascii "2" && c == ascii "5"
+     | _, _, _ => false) = true ∧ s.next = 3 ∧ s.pool.length = 3 := by
+  decide +kernel
+
+/-- **The atomicity the interleaving model assumes is the code's** (`Gen.Access`, the C05 access table,
+    regenerated with go/types on every run): every access to a field of `ObjectPool` outside its
+    constructors holds the pool's mutex `m` exclusively; the closure `kfMath` returns touches what it
+    captured (`expr`, `ctxPool`) only by reading it and by calling the self-synchronised pool; and the
+    operator tables and error values of package stdmath are written by package initialisation only (every
+    other write in the table is a call of a type that synchronises itself: `regexp.MatchString`). -/
+theorem pool_access_synchronised :
+    (Gen.Access.objectPool.all fun a =>
+      Gen.Access.objectPoolCtors.contains a.fn || (a.lock == "W" && a.mutex == "m")) = true ∧
+    ((Gen.Access.stageState.filter fun a => a.fn == "kfMath$1").all fun a => !a.write || a.atomic) = true ∧
+    ((Gen.Access.stageState.filter fun a => a.fn == "kfMath$1").length ≥ 6) ∧
+    (Gen.Access.stdmathGlobals.all fun a =>
+      !a.write || a.atomic || Gen.Access.stdmathGlobalsCtors.contains a.fn) = true := by
+  decide +kernel
+
+/-- **A constant and a variable bound to the same TEXT.**  For a literal spelling that the integer parser
+    rejects and `strconv.ParseFloat` reads (`0.5`, `1e3`, `.25`, `1_0.5`, `0x1p4`, `inf`, `nan`, integers beyond
+    int64), the constant in the formula and a variable whose capture text is that same spelling denote the
+    same binary64 value, and the look-up counts no error. -/
+theorem constant_equals_bound_text (L : Libm) (v : Bytes) (x : F64) (hbx : isBoxed v = false)
+    (hi : parseIntU v = none) (hp : F64.parseFloat v = some x) :
+    classify (arith L) v = some (.num x) ∧ conv v = (x, 0) :=
+  ⟨(literal_value_float L v hbx).2 x hi hp, by simp [conv, hp]⟩
+
+/-- …and just outside that class the two readings differ, because a constant goes through
+    `ParseInt(s, 0, 64)` FIRST and a capture only through `ParseFloat`: the constant `010` is octal 8 but the
+    text "010" binds 10; the constants `0x10`, `0b11`, `0o17` are 16, 3, 15 but as capture texts they are
+    `<BAD-TYPE>` (`ParseFloat` wants a `p` exponent after a hexadecimal mantissa and knows no other prefix).
+    Decimal integers agree (`9007199254740993` rounds to even both ways).  The property's "constants equal
+    bound variables" is about VALUES (`simplify_invisible`); this marks the boundary for texts. -/
+theorem constant_vs_bound_text_counterexample :
+    evalF64 (ascii "010") 0 = some (ofInt 8).bits ∧ conv (ascii "010") = (ofInt 10, 0) ∧
+    evalF64 (ascii "0x10") 0 = some (ofInt 16).bits ∧ (conv (ascii "0x10")).2 = 1 ∧
+    evalF64 (ascii "0b11") 0 = some (ofInt 3).bits ∧ (conv (ascii "0b11")).2 = 1 ∧
+    evalF64 (ascii "0o17") 0 = some (ofInt 15).bits ∧ (conv (ascii "0o17")).2 = 1 ∧
+    evalF64 (ascii "9007199254740993") 0 = some (conv (ascii "9007199254740993")).1.bits ∧
+    (conv (ascii "9007199254740993")).2 = 0 := by
+  decide +kernel
+
+/-- **Special values as constants and as bindings.**  `inf`, `infinity`, `nan` (any case) are numeric
+    CONSTANTS – `ParseFloat` reads them, so they are never variables –, a decimal that overflows (`1e400`)
+    is neither a constant nor a legal binding (`ParseFloat` reports a range error: compile error /
+    `<BAD-TYPE>`), and a variable bound to NaN, ±Inf or -0 behaves exactly like the constant
+    (`constants_equal_variables_f64` has no side condition on the values): `x == x` with x = NaN is 0 like
+    `nan == nan`, `1/x` with x = -0 is -Inf like `1/(-0)`. -/
+theorem special_values_constants_and_bindings :
+    classify arithT (ascii "inf") = some (.num (some (inf false))) ∧
+    classify arithT (ascii "Infinity") = some (.num (some (inf false))) ∧
+    (match classify arithT (ascii "NaN") with | some (.num (some x)) => x.isNaN | _ => false) = true ∧
+    evalF64 (ascii "1e400") 0 = none ∧ (conv (ascii "1e400")).2 = 1 ∧ (conv (ascii "")).2 = 1 ∧
+    evalF64 (ascii "x == x") F64.nan.bits = evalF64 (ascii "nan == nan") 0 ∧
+    evalF64 (ascii "1/x") (zero true).bits = some (inf true).bits ∧ evalF64 (ascii "1/-0") 0 = some (inf true).bits ∧
+    evalF64 (ascii "x - x") (inf false).bits = evalF64 (ascii "inf - inf") 0 ∧
+    evalF64 (ascii "inf - inf") 0 = some F64.nan.bits := by
   decide +kernel
 
 end ieee
